@@ -246,7 +246,7 @@ Definition cie_write (dbg be eh : bool) (pos : N) (c : cie) : res (list byte) :=
   let* cafb := write_uleb128 (c_caf c) in
   let* dafb := write_sleb128 (c_daf c) in
   let* rab :=
-    if negb eh && (ver =? 1) then
+    if ver =? 1 then                      (* one byte for version 1 in both sections (repo 3c6e5b8) *)
       (if c_ra c <? 256 then Ok [n2b (c_ra c)] else Err WValueTooLarge)
     else write_uleb128 (c_ra c) in
   let pre := id ++ [n2b (wrap8 ver)] ++ augstr ++ v4 ++ cafb ++ dafb ++ rab in
